@@ -12,7 +12,7 @@ def run(chk: common.Check):
     # the policy during end-to-end runs of the real simulator (the runs are also replayed through the simulator model)
     from harness.suites import _e2e_common as e2e
 
-    e2e.run_suite(chk, "C18", n_quick=100, n_thorough=1500, streams=("regular", "dag", "batch", "dag"))
+    e2e.run_suite(chk, "C18", n_quick=250, n_thorough=2500, streams=("regular", "dag", "batch", "dag"))
     chk.rule = rule + " || end-to-end: " + chk.rule
 
 
